@@ -437,11 +437,12 @@ fn check_scenario(rep: &mut Report, what: &str, tags: &[&str], rules: Vec<(Strin
     let (exp_out, exp_log) = run_model(&rules, symbols, facts);
     match run_real(&rules, symbols, facts, 2) {
         Err(e) if e.starts_with("ruleset built by with_rules") => rep.fail(&["C09", "C15"], "with_rules.order", &desc, &e, "the order in which the rules were added"),
+        Err(e) if e.starts_with("PANIC") => rep.fail(&["C01", "C09"], "evaluate_value.safety", &desc, &e, "outcomes, not a panic"),
         Err(e) => rep.fail(tags, "scenario.setup", &desc, &e, "ruleset builds"),
         Ok(runs) => {
             for (k, run) in runs.iter().enumerate() {
                 match &run.outcomes {
-                    Err(e) => { rep.fail(&["C09"], "evaluate_value.ok", &desc, e, "Ok(outcomes)"); return; }
+                    Err(e) => { rep.fail(if e.starts_with("PANIC") { &["C01", "C09"] } else { &["C09"] }, "evaluate_value.ok", &desc, e, "Ok(outcomes)"); return; }
                     Ok(os) => {
                         let names_ok = os.len() == exp_out.len() && os.iter().zip(&exp_out).all(|(a, b)| a.0 == b.0);
                         if !names_ok {
